@@ -85,6 +85,7 @@ Definition dec_label (l : list Z) : label :=
   else if Z.eqb k 5 then LRetain (bits_of (nthz l 1) (zn (nthz l 2)))
   else if Z.eqb k 6 then LPrep x (dec_key l)
   else if Z.eqb k 7 then LPrep2 x (dec_key l)
+  else if Z.eqb k 16 then LPrepVia (nthz l 2) x (dec_key l)
   else if Z.eqb k 8 then LCClear x
   else if Z.eqb k 9 then LCRemove x (dec_key l)
   else if Z.eqb k 10 then LRClear
